@@ -268,19 +268,40 @@ fn resealed(item: &Item, block_len: usize) -> Vec<u8> {
     }
 }
 
+/// Deterministic inputs of this monitor's own (seed independent witnesses of the [peek] findings): SAM.gz / VCF.gz
+/// files with one BGZF member per line, whose records end with their last mandatory field — the case in which the
+/// sync lazy readers call `fill_buf` once more after the line feed.
+fn local_items() -> Vec<Item> {
+    let member_per_line = |text: &str| -> Vec<u8> {
+        let blocks: Vec<Vec<u8>> = text.split_inclusive('\n').map(|l| l.as_bytes().to_vec()).collect();
+        obgzf::build_file(&blocks, obgzf::Enc::Deflate(6), 1)
+    };
+    let sam = "@HD\tVN:1.6\tSO:coordinate\n@SQ\tSN:sq0\tLN:1000\nr0\t0\tsq0\t1\t60\t4M\t*\t0\t0\tACGT\tIIII\nr1\t16\tsq0\t7\t30\t2M1I1M\t*\t0\t0\tTTGA\t*\nr2\t4\t*\t0\t0\t*\t*\t0\t0\tGG\t##\n";
+    let vcf = "##fileformat=VCFv4.3\n##contig=<ID=sq0,length=1000>\n#CHROM\tPOS\tID\tREF\tALT\tQUAL\tFILTER\tINFO\nsq0\t5\t.\tA\tC\t.\t.\t.\nsq0\t9\trs1\tG\tT,<DEL>\t12.5\tPASS\t.\nsq0\t40\t.\tC\t.\t.\t.\t.\n";
+    vec![
+        Item { kind: Kind::SamGz, name: "samgz/c16-one-member-per-line-records-without-data".into(), bytes: member_per_line(sam), side: corpus::Side::default() },
+        Item { kind: Kind::VcfGz, name: "vcfgz/c16-one-member-per-line-records-without-samples".into(), bytes: member_per_line(vcf), side: corpus::Side::default() },
+    ]
+}
+
 fn salt_of(name: &str, extra: u64) -> u64 {
     fnv1a(name.as_bytes()).wrapping_add(extra.wrapping_mul(0x9E37_79B9)) % 1_000_003
 }
 
 fn gen_world(ctx: &Ctx) -> World {
-    let quick = ctx.quick();
+    // `tiny=1` (sanitizer / Miri stages, in-process): the smallest workload whatever the tier
     let tiny = ctx.param("tiny").is_some();
-    let scale = ctx.budget("scale", if tiny { 0 } else { 1 }, 2) as u8;
-    let items = corpus::items(ctx.seed, scale);
+    let quick = ctx.quick() || tiny;
+    let size = |key: &str, t: u64, q: u64, th: u64| -> u64 { if tiny { ctx.budget(key, t, t) } else { ctx.budget(key, q, th) } };
+    let scale = size("scale", 0, 1, 2) as u8;
+    let mut items = corpus::items(ctx.seed, scale);
+    if !tiny {
+        items.extend(local_items());
+    }
     let mut cases = Vec::new();
     let item_filter = ctx.param("item").map(|s| s.to_string());
-    let per_case = ctx.budget("pairs_per_case", 8, 16) as usize;
-    let n_rot = ctx.budget("cfgs", if tiny { 2 } else { 10 }, 0) as usize; // 0 = full product
+    let per_case = size("pairs_per_case", 8, 8, 16) as usize;
+    let n_rot = size("cfgs", 2, 10, 0) as usize; // 0 = full product
     let seed = ctx.seed;
     let only = ctx.param("only").map(|s| s.to_string());
     let want = |k: &str| only.as_deref().map(|o| o.split(',').any(|x| x == k)).unwrap_or(true);
@@ -358,7 +379,7 @@ fn gen_world(ctx: &Ctx) -> World {
     }
     // --- SK: BGZF histories with seeks
     if want("sk") {
-        let n_hist = ctx.budget("seek_histories", if tiny { 1 } else { 4 }, 24) as u64;
+        let n_hist = size("seek_histories", 1, 4, 24);
         for (i, item) in items.iter().enumerate() {
             let eligible = item.kind == Kind::Bgzf || (item.kind == Kind::Bam && item.name.contains("multiblock")) || (!quick && matches!(item.kind, Kind::VcfGz | Kind::Bcf) && item.name.contains("manyblocks"));
             if !eligible || (quick && item.bytes.len() > 100_000) {
@@ -383,7 +404,7 @@ fn gen_world(ctx: &Ctx) -> World {
     }
     // --- QY: region queries
     if want("qy") && !tiny {
-        let n_q = ctx.budget("query_seeds", 3, 12) as u64;
+        let n_q = size("query_seeds", 1, 3, 12);
         for (ix, index) in items.iter().enumerate() {
             let Some(dname) = &index.side.indexed_item else { continue };
             let Some(dx) = items.iter().position(|d| &d.name == dname) else { continue };
@@ -428,7 +449,7 @@ fn gen_world(ctx: &Ctx) -> World {
     }
     // --- WB: seeded BGZF write histories (lengths around the staging limit, odd splits, flush patterns, every level)
     if want("wb") {
-        let n_hist = ctx.budget("bgzf_histories", if tiny { 2 } else { 30 }, 500) as usize;
+        let n_hist = size("bgzf_histories", 2, 30, 500) as usize;
         let mut rng = Rng::new(seed, 0xB7, 0);
         let boundary = vcore::payload::boundary_lengths();
         for h in 0..n_hist {
@@ -664,7 +685,7 @@ fn run_rd(w: &World, o: &mut CaseOut, item: &Item, variant: Variant, reseal: usi
                 let got = strip_all(got_raw.clone());
                 if let Some((i, class)) = diff_class(&expected, &got) {
                     let mut sig = rd_signature(kind, variant, malform, &data, &expected, &got, i, &class, sync_msg.as_deref());
-                    if stream && !sig.starts_with("bgzf-layer:") {
+                    if stream && !sig.starts_with("bgzf-layer:") && !sig.contains(":reader:lazy:") {
                         sig = sig.replacen(":reader:", ":reader:stream-", 1);
                     }
                     o.violation_with(
@@ -723,10 +744,24 @@ fn rd_signature(kind: Kind, variant: Variant, malform: &Malform, bytes: &[u8], e
                     // the rest of the transcript must agree once V: elements are set aside
                     let no_v = |t: &[String]| t.iter().filter(|s| !s.starts_with("V:")).cloned().collect::<Vec<_>>();
                     if oe.is_some() && oe == og && no_v(expected) == no_v(got) {
+                        if matches!(kind, Kind::SamGz | Kind::VcfGz) && variant == Variant::Primary {
+                            return format!("{}:reader:lazy:sync-reader-peeks-past-the-line-feed:virtual-position-other-member-boundary-same-data-offset", kind.name());
+                        }
                         return format!("{}:reader:{}:{}:virtual-position-other-member-boundary-same-data-offset", kind.name(), variant_name(variant), input);
                     }
                 }
             }
+        }
+    }
+    if matches!(kind, Kind::SamGz | Kind::VcfGz) && variant == Variant::Primary && class == "async-goes-on" {
+        // [peek] the sync lazy SAM / VCF record readers call fill_buf once more after the line feed of a record that ends
+        // with its last mandatory field: a bad next block fails the call that reads the record BEFORE it; the async lazy
+        // readers deliver that record and fail on the next call (same error)
+        let (eb, _) = terminator(expected);
+        let (gb, _) = terminator(got);
+        let extra = &gb[eb.len()..];
+        if extra.len() <= 2 && extra.iter().filter(|s| s.starts_with("R:")).count() == 1 && extra.iter().all(|s| s.starts_with("R:") || s.starts_with("V:")) {
+            return format!("{}:reader:lazy:sync-reader-peeks-past-the-line-feed:error-surfaces-one-record-earlier-in-sync", kind.name());
         }
     }
     if matches!(kind, Kind::Cram | Kind::Crai) && *malform != Malform::None && class.starts_with("same-elements:ERR:") && class.contains("->ERR:") {
@@ -1173,8 +1208,8 @@ fn run_case(ctx: &Ctx, w: &World, c: &Case) -> CaseOut {
     o.evaluations = c.cfgs.len() as u64;
     match &c.what {
         What::Rd { item, variant, reseal, malform, stream } => run_rd(w, &mut o, &w.items[*item], *variant, *reseal, malform, *stream, &c.cfgs),
-        What::Sk { item, reseal, hseed } => run_sk(&mut o, &w.items[*item], *reseal, *hseed, &c.cfgs, ctx.quick()),
-        What::Qy { data, index, mode, qseed } => run_qy(&mut o, &w.items[*data], &w.items[*index], *mode, *qseed, &c.cfgs, ctx.quick()),
+        What::Sk { item, reseal, hseed } => run_sk(&mut o, &w.items[*item], *reseal, *hseed, &c.cfgs, ctx.quick() || ctx.param("tiny").is_some()),
+        What::Qy { data, index, mode, qseed } => run_qy(&mut o, &w.items[*data], &w.items[*index], *mode, *qseed, &c.cfgs, ctx.quick() || ctx.param("tiny").is_some()),
         What::Wr { item, level } => run_wr(&mut o, &w.items[*item], *level, &c.cfgs),
         What::Wb { class, len, split, flush_every, level, pseed } => {
             let mut rng = Rng::new(*pseed, 0xB8, 0);
@@ -1255,8 +1290,12 @@ fn main() {
             // schedules: a worker count >= 2 that was exercised with a delay plan but never showed an inversion is
             // inconclusive for that part
             for what in ["inflate", "deflate"] {
-                for wk in 2..=8 {
-                    if get(&format!("{what}_scheduled_runs[w={wk}]")) > 0 || !tiny {
+                if tiny {
+                    // sanitizer-sized workload: a handful of scheduled runs per worker count; only the total is required
+                    let total: u64 = (2..=8).map(|wk| get(&format!("{what}_inversions[w={wk}]"))).sum();
+                    rep.floor(&format!("{what} completion inversions at worker counts 2..8 (tiny workload)"), total, 1);
+                } else {
+                    for wk in 2..=8 {
                         rep.floor(&format!("{what} completion inversions at worker count {wk}"), get(&format!("{what}_inversions[w={wk}]")), 1);
                     }
                 }
